@@ -168,10 +168,14 @@ Print Assumptions C01_evict_ops_no_bind.
 
 (* ---------- audit round ---------- *)
 
-(* 8. (audit W1) the gang theorem WITHOUT a hypothesis on intermediate states, for every choice list of
-   the one-allocate shape: no job is attempted again after an attempt that was not committed
-   (allocate.go 305-356 re-pushes a job only after Commit), backfill placements anywhere.  Covers
-   the action lists in which allocate occurs at most once. *)
+(* 8. (audit W1) the gang theorem for choice lists of the one-allocate SHAPE [kept_free]: no job is
+   attempted again after an attempt that the MODEL decides not to commit (allocate.go 305-356 re-pushes a
+   job only after Commit); backfill placements anywhere.  [kept_free] is still a hypothesis about the
+   run: it recurses through [step] and branches on the model's [decide] in every intermediate world
+   (the same choice list can have the shape on one cluster and not on another).  What it replaces is
+   the state invariant [guarded]; what it asks for is the closed-loop behaviour of allocate's queue
+   loop, which is NOT modelled here: that real single-allocate runs have the shape is checked per
+   real trace by law 104.  Only [C01_gang_ok_attempt_once] below has a purely syntactic hypothesis. *)
 Theorem C01_kept_free_guarded eps ops w K :
   winv w -> kinv (w_sess w) K -> kept_free eps w K ops -> guarded eps w ops.
 Proof. exact (kept_free_guarded eps ops w K). Qed.
